@@ -201,7 +201,7 @@ def l6(ctx: Ctx):
         file=COMPILER_REL,
         line=use.lineno,
         witness="" if ok else f"input file {w}.bas",
-        props=["C13", "C15"],
+        props=["C13", "C15", "C11"],
     )
     # the header pattern reads what the tool writes: `procedure <name>` alone on a line
     hre = re.compile(hdr, pats["PROCEDURE_START_PREFIX"].flags)
